@@ -5,7 +5,7 @@ makes the *path* that reaches it 'unsupported' (never silently skipped).
 """
 import re
 
-FN_RE = re.compile(r"^fn (.+?)\((.*)\) -> (.+?) \{$")
+FN_RE = re.compile(r"^fn (.+?)\((.*)\) -> (.+) \{$")   # greedy params: split at the LAST ") -> "
 LET_RE = re.compile(r"^\s+let (?:mut )?(_\d+): (.+);$")
 BB_RE = re.compile(r"^\s+(bb\d+)(?: \(cleanup\))?: \{$")
 
@@ -22,11 +22,13 @@ class Func:
 
 def split_params(s):
     out, depth, cur = [], 0, ""
+    prev = ""
     for ch in s:
         if ch in "<([":
             depth += 1
-        elif ch in ">)]":
+        elif ch in ")]" or (ch == ">" and prev != "-"):      # "->" in fn(..) -> T is not a closing bracket
             depth -= 1
+        prev = ch
         if ch == "," and depth == 0:
             out.append(cur.strip())
             cur = ""
@@ -51,6 +53,33 @@ def parse(text, name_filter=None):
     while i < n:
         ln = lines[i]
         m = FN_RE.match(ln) if ln.startswith("fn ") else None
+        if not m and ln.startswith("const "):
+            cm = re.match(r"^const (.+?): (.+) = \{$", ln)
+            if cm:                                   # named constant: a body without parameters
+                m = re.match(r"^(.*)$", ln)
+                name = "const " + cm.group(1).split("::")[-1]
+                j = i + 1
+                while j < n and lines[j] != "}":
+                    j += 1
+                f = Func(name, [], cm.group(2))
+                f.locals["_0"] = f.ret
+                cur = None
+                for k in range(i + 1, j):
+                    l2 = lines[k]
+                    bm = BB_RE.match(l2)
+                    if bm:
+                        cur = bm.group(1)
+                        f.blocks[cur] = []
+                        continue
+                    if cur is not None:
+                        st = l2.strip()
+                        if st == "}":
+                            cur = None
+                        elif st:
+                            f.blocks[cur].append(st)
+                funcs.setdefault(name, f)
+                i = j + 1
+                continue
         if not m:
             i += 1
             continue
